@@ -9,6 +9,18 @@ def run(cmd, cwd):
     p = subprocess.run(cmd, cwd=cwd, env=env, capture_output=True, text=True)
     return p.returncode
 
+def run_demo(demo, wc):
+    if demo.endswith(".sh"):
+        shutil.copy(demo, wc + "/" + os.path.basename(demo))
+        env = dict(os.environ, CARGO_NET_OFFLINE="true", CARGO_TARGET_DIR=os.path.join(wc, "target"), WORKTREE=wc)
+        return subprocess.run(["sh", os.path.basename(demo)], cwd=wc, env=env, capture_output=True, text=True).returncode
+    os.makedirs(wc + "/tests", exist_ok=True)
+    shutil.copy(demo, wc + "/tests/" + os.path.basename(demo))
+    r = run(["cargo", "test", "--offline", "--test", os.path.basename(demo)[:-3]], wc)
+    os.remove(wc + "/tests/" + os.path.basename(demo))
+    return r
+
+
 def one(sid):
     d = "/verif/seeded/%s" % sid
     demos = glob.glob(d + "/demo_*.rs") + glob.glob(d + "/*.sh")
@@ -17,14 +29,10 @@ def one(sid):
     wc = tempfile.mkdtemp(prefix="recheck-", dir=CACHE)
     try:
         subprocess.run(["rsync", "-a", "--exclude", "/target", "--exclude", "/.git", "/repo/", wc + "/"], check=True)
-        os.makedirs(wc + "/tests", exist_ok=True)
-        shutil.copy(demo, wc + "/tests/")
-        rc0 = run(["cargo", "test", "--offline", "--test", tname], wc)
-        os.remove(wc + "/tests/" + os.path.basename(demo))
+        rc0 = run_demo(demo, wc)
         if subprocess.run(["patch", "-p1", "-s", "-i", d + "/patch.diff"], cwd=wc).returncode: return sid, "patch does not apply"
         rc1 = run(["cargo", "test", "--offline"], wc)
-        shutil.copy(demo, wc + "/tests/")
-        rc2 = run(["cargo", "test", "--offline", "--test", tname], wc)
+        rc2 = run_demo(demo, wc)
         return sid, "OK" if (rc0 == 0 and rc1 == 0 and rc2 != 0) else "MISMATCH clean=%s suite=%s patched=%s" % (rc0, rc1, rc2)
     finally:
         shutil.rmtree(wc, ignore_errors=True)
